@@ -2137,6 +2137,7 @@ func runC13(c *Ctx) {
 			}
 		}
 	}
+	c13LibraryMaps(c)
 }
 
 func c13CodeOfKey(cs *case13, vk string) string {
